@@ -8,7 +8,8 @@
 (*           operator per real step: Enter (set_file_position / rewind_body at the top of           *)
 (*           urlopen), Send (body_to_chunks + HTTPConnection.request: what the body yields NOW,     *)
 (*           serialised by Wire!Serialize and read back by Wire!ParseOne, i.e. the peer),           *)
-(*           Reply (the scripted outcome: ok, connection error, 503, 307/308, 303; retry and        *)
+(*           SendBreaks (the same, but the connection fails at the first body write), Reply (the    *)
+(*           scripted outcome: ok, connection error, 503, 307/308, 303; retry and                   *)
 (*           pool-level redirect keep body_pos, the manager-level redirect starts a new urlopen).    *)
 (*           Named deviations, enabled by membership in the parameter D:                            *)
 (*             "D3"  a body that cannot be replayed (one-shot iterator, file-like object without     *)
@@ -45,8 +46,11 @@ Replayable == {"bytes", "str", "buffer", "list", "strlist"}
 \*             method : Seq(Symbol), chunked : BOOLEAN, caller : "none"|"cl"|"te",
 \*             bs : Nat,                                        blocksize of the connection (file-like bodies are read bs units at a time)
 \*             client : "pool"|"mgr", hist : Seq(outcome)]     outcome in Outcomes, the last one is "ok"
-Outcomes == {"ok", "err", "503", "307", "308", "303"}
-Resend == {"err", "503", "307", "308"}       \* the request is sent again with its body
+\*   "err"     the connection breaks after the whole request was written (no response)
+\*   "errsend" the connection breaks while the body is being written: the second write of the attempt fails
+\*             (the head is out, the body is partly consumed); without a second write it degenerates to "err"
+Outcomes == {"ok", "err", "errsend", "503", "307", "308", "303"}
+Resend == {"err", "errsend", "503", "307", "308"}       \* the request is sent again with its body
 GETm == <<"G","E","T">>
 
 BodyData(sc) == SubSeq(sc.content, sc.start + 1, Len(sc.content))
@@ -136,7 +140,7 @@ ReqOf(sc, st, chunks) ==
      chunked |-> sc.chunked]
 
 InitState(sc) == [pc |-> "enter", method |-> sc.method, target |-> <<"a">>, hasBody |-> sc.kind # "none",
-                  cursor |-> sc.start, used |-> FALSE, bodyPos |-> PosNone, left |-> sc.hist,
+                  cursor |-> sc.start, used |-> 0, bodyPos |-> PosNone, left |-> sc.hist,
                   atts |-> <<>>, wires |-> <<>>, outcome |-> "running"]
 
 Fail(st, what) == [st EXCEPT !.pc = "done", !.outcome = what]
@@ -167,16 +171,24 @@ EnterCase(D, sc, st) ==
     ELSE IF k \in OneShot /\ "D3" \notin D THEN "MarkUnreplayable"
     ELSE "NoPosition"
 
-\* what the body yields when it is iterated now
+\* what the body yields when it is iterated now (st.used = chunks already taken from a one-shot iterator)
 Yield(sc, st) ==
     LET k == IF st.hasBody THEN sc.kind ELSE "none" IN
     CASE k = "none" -> <<>>
       [] k \in {"bytes", "str", "buffer"} -> <<BodyData(sc)>>
       [] k \in FileLike -> Blocks(SubSeq(sc.content, st.cursor + 1, Len(sc.content)), sc.bs)
       [] k \in {"list", "strlist"} -> ListChunks(BodyData(sc))
-      [] k = "gen" -> IF st.used THEN <<>> ELSE ListChunks(BodyData(sc))
+      [] k = "gen" -> SubSeq(ListChunks(BodyData(sc)), st.used + 1, 4)
 
-WireOf(sc, st) == Serialize("pool", ReqOf(sc, st, Yield(sc, st)))
+NowReq(sc, st) == ReqOf(sc, st, Yield(sc, st))
+WireOf(sc, st) == Serialize("pool", NowReq(sc, st))
+HeadOf(sc, st) == SerializeHead("pool", NowReq(sc, st))
+
+\* the first body write of the attempt: the first non-empty chunk (empty ones are skipped without a write),
+\* else the terminating chunk when the framing is chunked, else there is none
+FirstNonEmpty(chunks) == IF \E i \in 1..Len(chunks) : chunks[i] # <<>> THEN CHOOSE i \in 1..Len(chunks) : chunks[i] # <<>> /\ \A j \in 1..(i - 1) : chunks[j] = <<>> ELSE 0
+HasBodyWrite(sc, st) == FirstNonEmpty(Yield(sc, st)) > 0 \/ FramingMode(NowReq(sc, st)) = "chunked"
+Breaks(sc, st) == st.left # <<>> /\ Head(st.left) = "errsend" /\ HasBodyWrite(sc, st)
 
 \* body_to_chunks + HTTPConnection.request, then the peer reads the message
 Send(sc, st) ==
@@ -185,21 +197,34 @@ Send(sc, st) ==
                !.atts = Append(st.atts, Observe(WireOf(sc, st))),
                !.wires = Append(st.wires, WireOf(sc, st)),
                !.cursor = IF k \in FileLike THEN Len(sc.content) ELSE st.cursor,
-               !.used = IF k = "gen" THEN TRUE ELSE st.used]
+               !.used = IF k = "gen" THEN 4 ELSE st.used]
+
+\* the same, but the write of the first body chunk fails: the peer has the head only, and the body has been
+\* consumed up to and including the chunk that could not be written
+SendBreaks(sc, st) ==
+    LET k == IF st.hasBody THEN sc.kind ELSE "none"
+        chunks == Yield(sc, st)
+        i == FirstNonEmpty(chunks) IN
+    [st EXCEPT !.pc = "reply",
+               !.atts = Append(st.atts, [Observe(HeadOf(sc, st)) EXCEPT !.complete = FALSE]),
+               !.wires = Append(st.wires, HeadOf(sc, st)),
+               !.cursor = IF k \in FileLike THEN (IF i = 0 THEN Len(sc.content) ELSE st.cursor + Len(chunks[i])) ELSE st.cursor,
+               !.used = IF k = "gen" THEN (IF i = 0 THEN 4 ELSE st.used + i) ELSE st.used]
 
 \* the scripted outcome of this attempt and what urlopen / PoolManager.urlopen do with it
 Reply(D, sc, st) ==
     LET o == Head(st.left)
         rest == Tail(st.left) IN
     CASE o = "ok" -> [st EXCEPT !.pc = "done", !.outcome = "resp", !.left = rest]
-      [] o \in {"err", "503"} -> [st EXCEPT !.pc = "enter", !.left = rest]                   \* recursion with body_pos
+      [] o \in {"err", "errsend", "503"} -> [st EXCEPT !.pc = "enter", !.left = rest]        \* recursion with body_pos
       [] o \in {"307", "308"} ->
            [st EXCEPT !.pc = "enter", !.left = rest, !.target = <<"a","g","a","i","n">>,
                       !.bodyPos = IF sc.client = "mgr" /\ "D4" \in D THEN PosNone ELSE st.bodyPos]
       [] o = "303" -> [st EXCEPT !.pc = "enter", !.left = rest, !.target = <<"a","g","a","i","n">>,
                                  !.method = GETm, !.hasBody = FALSE, !.bodyPos = PosNone]
 
-Step(D, sc, st) == CASE st.pc = "enter" -> Enter(D, sc, st) [] st.pc = "send" -> Send(sc, st)
+Step(D, sc, st) == CASE st.pc = "enter" -> Enter(D, sc, st)
+                     [] st.pc = "send" -> (IF Breaks(sc, st) THEN SendBreaks(sc, st) ELSE Send(sc, st))
                      [] st.pc = "reply" -> Reply(D, sc, st) [] st.pc = "done" -> st
 
 \* the complete model run of a scenario (trace validation compares a recorded run with it)
@@ -209,15 +234,15 @@ Predict(D, sc) == RunFrom(D, sc, InitState(sc))
 
 \* projection of an attempt that model and recorded run are compared on
 Proj(a) == [complete |-> a.complete, method |-> a.method, mode |-> a.mode, payload |-> a.payload]
-SameRun(D, sc, atts, outcome) ==
-    LET p == Predict(D, sc) IN
+\* p = a finished model state: is the recorded run (attempt summaries, outcome) that run?
+Matches(p, atts, outcome) ==
     /\ p.outcome = outcome
     /\ Len(p.atts) = Len(atts)
     /\ \A j \in 1..Len(atts) : Proj(p.atts[j]) = Proj(atts[j])
-
+SameRun(D, sc, atts, outcome) == Matches(Predict(D, sc), atts, outcome)
 \* stronger, soft: the bytes of every attempt are the model's canonical serialisation (header order, chunk boundaries)
-SameBytes(D, sc, raws) ==
-    LET p == Predict(D, sc) IN Len(p.wires) = Len(raws) /\ \A j \in 1..Len(raws) : p.wires[j] = raws[j]
+BytesMatch(p, raws) == Len(p.wires) = Len(raws) /\ \A j \in 1..Len(raws) : p.wires[j] = raws[j]
+SameBytes(D, sc, raws) == BytesMatch(Predict(D, sc), raws)
 
 -----------------------------------------------------------------------------
 (* Signature of the recorded defects: the classes in which the deviations may break BodyIdentical  *)
